@@ -129,6 +129,57 @@ theorem BoundUpload.spec {s : State} {u : UploadRef} {b k : Bytes} (h : BoundUpl
       simp only [abs_upload_lookup, hl, Option.map_some]
       simp [upOf, h.1, h.2]
 
+/-- the upload `u` names does not exist: the id is not a UUID, or no upload has it -/
+def AbsentUpload (s : State) (u : UploadRef) : Prop :=
+  match u with
+  | none => True
+  | some id => alLookup id s.uploads = none
+
+/-- the upload `u` names does not exist (both sides answer `NoSuchUpload` since 38336b0; before: fs:unknown-upload-code,
+    fs:list-parts-unknown-upload), or it exists and was created for this bucket and key [else fs:upload-not-bound-to-key] -/
+def UploadOk (s : State) (u : UploadRef) (b k : Bytes) : Prop :=
+  match u with
+  | none => True
+  | some id =>
+    match alLookup id s.uploads with
+    | none => True
+    | some ui => ui.bucket = b ∧ ui.key = k
+
+instance (s : State) (u : UploadRef) (b k : Bytes) : Decidable (UploadOk s u b k) := by
+  unfold UploadOk
+  split
+  · infer_instance
+  · split <;> infer_instance
+
+theorem UploadOk.cases {s : State} {u : UploadRef} {b k : Bytes} (h : UploadOk s u b k) :
+    BoundUpload s u b k ∨ AbsentUpload s u := by
+  unfold UploadOk at h
+  unfold BoundUpload AbsentUpload
+  cases u with
+  | none => exact .inr trivial
+  | some id =>
+    simp only at h ⊢
+    cases hl : alLookup id s.uploads with
+    | none => exact .inr rfl
+    | some ui => rw [hl] at h; exact .inl h
+
+/-- an upload that does not exist is unknown to the store as well -/
+theorem AbsentUpload.upload {s : State} {u : UploadRef} (h : AbsentUpload s u) (b k : Bytes) :
+    (abs s).upload u b k = none := by
+  unfold AbsentUpload at h
+  unfold Store.upload
+  cases u with
+  | none => rfl
+  | some id =>
+    simp only at h
+    simp [abs_upload_lookup, h]
+
+theorem AbsentUpload.verify {s : State} {id : Nat} (h : AbsentUpload s (some id)) (who : Who) :
+    s.verify who id = some .NoSuchUpload := by
+  unfold AbsentUpload at h
+  simp only at h
+  simp [State.verify, h]
+
 /-- `create_multipart_upload` comparable: the bucket name agrees and the metadata file name fits
     [else fs:long-key-internal-error] -/
 def CreateUploadOk (_s : State) (b k : Bytes) : Prop :=
@@ -242,10 +293,10 @@ namespace S3V.FsStore
 open S3V.StoreSpec
 
 /-- `upload_part` comparable: the part number is too large (refused by both), or it is at least 1
-    [else fs:part-number-not-validated] and the upload exists for this bucket and key
-    [else fs:unknown-upload-code, fs:upload-not-bound-to-key] -/
+    [else fs:part-number-not-validated] and the upload does not exist (`NoSuchUpload` on both sides) or was created for this
+    bucket and key [else fs:upload-not-bound-to-key] -/
 def UploadPartOk (s : State) (b k : Bytes) (u : UploadRef) (n : Int) : Prop :=
-  n > 10000 ∨ (1 ≤ n ∧ BoundUpload s u b k)
+  n > 10000 ∨ (1 ≤ n ∧ UploadOk s u b k)
 
 /-- an upload with part `n` (re)written -/
 def withPart (up : Upload) (n : Int) (c : Bytes) : Upload := { up with parts := alInsert n c up.parts }
@@ -300,6 +351,13 @@ theorem uploadPart_refines (H : Hashes) (dl : Nat) {s : State} (hi : Inv s) {who
     · have : n < 1 ∨ n > 10000 := Or.inr hbig
       simp [step, StoreSpec.step, hbig, this, hi]
     · have hrange : ¬ (n < 1 ∨ n > 10000) := by omega
+      rcases hbound.cases with hbound | habs
+      case inr =>
+        have hup := habs.upload b k
+        have hn1 : ¬ n < 1 := by omega
+        cases u with
+        | none => simp [step, StoreSpec.step, hbig, hn1, hup, hi]
+        | some id => simp [step, StoreSpec.step, hbig, hn1, hup, habs.verify who, hi]
       obtain ⟨id, ui, rfl, hl, hb, hk, hup⟩ := hbound.spec
       by_cases hown : ui.owner = who
       · have hstep : step H dl s (.uploadPart who b k (some id) n c) =
@@ -315,15 +373,25 @@ theorem uploadPart_refines (H : Hashes) (dl : Nat) {s : State} (hi : Inv s) {who
         have hn1 : ¬ n < 1 := by omega
         simp [step, StoreSpec.step, hbig, hn1, State.verify, hl, hown, hup, hown', hi]
 
-/-- `list_parts` comparable: the upload exists for this bucket and key [else fs:list-parts-unknown-upload] -/
-def ListPartsOk (s : State) (b k : Bytes) (u : UploadRef) : Prop := BoundUpload s u b k
+/-- `list_parts` comparable: the upload does not exist (`NoSuchUpload` on both sides since 38336b0; before:
+    fs:list-parts-unknown-upload) or was created for this bucket and key [else fs:upload-not-bound-to-key] -/
+def ListPartsOk (s : State) (b k : Bytes) (u : UploadRef) : Prop := UploadOk s u b k
 
 theorem listParts_refines (H : Hashes) (dl : Nat) {s : State} (hi : Inv s) {who : Who} {b k : Bytes}
     {u : UploadRef} (hg : ListPartsOk s b k u) :
     (step H dl s (.listParts who b k u)).2 = (StoreSpec.step H (abs s) (.listParts who b k u)).2 ∧
     abs (step H dl s (.listParts who b k u)).1 = (StoreSpec.step H (abs s) (.listParts who b k u)).1 ∧
     Inv (step H dl s (.listParts who b k u)).1 := by
+  rcases UploadOk.cases hg with hg | habs
+  case inr =>
+    have hup := habs.upload b k
+    cases u with
+    | none => simp [step, StoreSpec.step, hup, hi]
+    | some id =>
+      have hl : alLookup id s.uploads = none := habs
+      simp [step, StoreSpec.step, hup, alHas, hl, hi]
   obtain ⟨id, ui, rfl, hl, hb, hk, hup⟩ := BoundUpload.spec hg
+  have hhas : alHas id s.uploads = true := by simp [alHas, hl]
   have : (absParts s id).map (fun p => (p.1, p.2.length)) =
       s.parts.filterMap fun e => if e.1.1 = id then some (e.1.2, e.2.length) else none := by
     unfold absParts
@@ -331,11 +399,11 @@ theorem listParts_refines (H : Hashes) (dl : Nat) {s : State} (hi : Inv s) {who 
     congr 1
     funext e
     by_cases h : e.1.1 = id <;> simp [h]
-  simp [step, StoreSpec.step, hup, upOf, this, hi]
+  simp [step, StoreSpec.step, hup, upOf, this, hhas, hi]
 
-/-- `abort_multipart_upload` comparable: the upload exists for this bucket and key
-    [else fs:unknown-upload-code, fs:upload-not-bound-to-key] -/
-def AbortOk (s : State) (b k : Bytes) (u : UploadRef) : Prop := BoundUpload s u b k
+/-- `abort_multipart_upload` comparable: the upload does not exist (`NoSuchUpload` on both sides) or was created for this
+    bucket and key [else fs:upload-not-bound-to-key] -/
+def AbortOk (s : State) (b k : Bytes) (u : UploadRef) : Prop := UploadOk s u b k
 
 theorem absParts_filter_other {s : State} {id id' : Nat} (hne : id' ≠ id) :
     (s.parts.filter fun e => e.1.1 ≠ id).filterMap (fun p => if p.1.1 = id' then some (p.1.2, p.2) else none) =
@@ -360,6 +428,12 @@ theorem abort_refines (H : Hashes) (dl : Nat) {s : State} (hi : Inv s) {who : Wh
     abs (step H dl s (.abortMultipartUpload who b k u)).1 =
       (StoreSpec.step H (abs s) (.abortMultipartUpload who b k u)).1 ∧
     Inv (step H dl s (.abortMultipartUpload who b k u)).1 := by
+  rcases UploadOk.cases hg with hg | habs
+  case inr =>
+    have hup := habs.upload b k
+    cases u with
+    | none => simp [step, StoreSpec.step, hup, hi]
+    | some id => simp [step, StoreSpec.step, hup, habs.verify who, hi]
   obtain ⟨id, ui, rfl, hl, hb, hk, hup⟩ := BoundUpload.spec hg
   by_cases hown : ui.owner = who
   · have hstep : step H dl s (.abortMultipartUpload who b k (some id)) =
